@@ -1364,3 +1364,47 @@ impl<T> From<Error> for RecvHeaderBlockError<T> {
         RecvHeaderBlockError::State(err)
     }
 }
+
+#[cfg(feature = "verif-hooks")]
+impl Recv {
+    /// Read-only dump (verification hook).
+    pub(super) fn verif_dump(
+        &self,
+        store: &Store,
+        out: &mut Vec<(&'static str, i64)>,
+        queues: &mut Vec<(&'static str, Vec<u32>)>,
+    ) {
+        out.push(("recv_init_window_sz", self.init_window_sz as i64));
+        out.push(("recv_flow_window", isize::from(self.flow.window_size_raw()) as i64));
+        out.push(("recv_flow_available", isize::from(self.flow.available()) as i64));
+        out.push(("recv_in_flight_data", self.in_flight_data as i64));
+        out.push((
+            "recv_next_stream_id",
+            match self.next_stream_id {
+                Ok(id) => u32::from(id) as i64,
+                Err(_) => -1,
+            },
+        ));
+        out.push(("recv_last_processed_id", u32::from(self.last_processed_id) as i64));
+        out.push(("recv_max_stream_id", u32::from(self.max_stream_id) as i64));
+        out.push(("recv_buffer_len", self.buffer.verif_len() as i64));
+        out.push((
+            "recv_refused",
+            self.refused.map(|id| u32::from(id) as i64).unwrap_or(-1),
+        ));
+        out.push(("recv_is_push_enabled", self.is_push_enabled as i64));
+        queues.push((
+            "pending_window_updates",
+            self.pending_window_updates.verif_ids(store),
+        ));
+        queues.push(("pending_accept", self.pending_accept.verif_ids(store)));
+        queues.push((
+            "pending_reset_expired",
+            self.pending_reset_expired.verif_ids(store),
+        ));
+    }
+
+    pub(super) fn verif_pending_recv_len(&self, stream: &Stream) -> usize {
+        stream.pending_recv.verif_len(&self.buffer)
+    }
+}
